@@ -196,10 +196,13 @@ pub fn walk_selection(um: &UserModel) -> Vec<Defect> {
     let mut out = vec![];
     let v = um.get_selected_view();
     let n = um.get_model().workbook.worksheets.len() as u32;
-    if v.sheet >= n {
+    // `get_selected_view` falls back to sheet 0 when the selected sheet does not exist;
+    // the selected sheet itself is read through `get_selected_sheet`
+    let selected_sheet = um.get_selected_sheet();
+    if selected_sheet >= n || v.sheet >= n {
         out.push((
             "selection.sheet_missing".into(),
-            format!("selected sheet {} of {n}", v.sheet),
+            format!("selected sheet {selected_sheet} of {n}"),
         ));
     }
     let [r1, c1, r2, c2] = v.range;
